@@ -554,6 +554,15 @@ def main() -> int:
         print(text)
     if not p.exists() or p.read_text() != text:
         p.write_text(text)
+    import py2lean_expr  # noqa: E402
+
+    text, problems = py2lean_expr.translate_exprops(Path(args.repo))
+    all_problems += ["[Gen.ExprOps] " + x for x in problems]
+    p = outdir / "ExprOps.lean"
+    if args.print:
+        print(text)
+    if not p.exists() or p.read_text() != text:
+        p.write_text(text)
     import py2lean_serdes  # noqa: E402
 
     text, problems = py2lean_serdes.translate_serdes(Path(args.repo))
@@ -568,6 +577,15 @@ def main() -> int:
     text, problems = py2lean_names.translate_names(Path(args.repo))
     all_problems += ["[Gen.Names] " + x for x in problems]
     p = outdir / "Names.lean"
+    if args.print:
+        print(text)
+    if not p.exists() or p.read_text() != text:
+        p.write_text(text)
+    import py2lean_const  # noqa: E402
+
+    text, problems = py2lean_const.translate_constant(Path(args.repo))
+    all_problems += ["[Gen.Constant] " + x for x in problems]
+    p = outdir / "Constant.lean"
     if args.print:
         print(text)
     if not p.exists() or p.read_text() != text:
